@@ -54,6 +54,23 @@ CLAIMED = {
             "components of the two source boxes with the same index, for independent layouts); outputs compared bit for bit with both "
             "inputs and offset for offset with the model; mismatched meshes must be refused before anything is written.",
             "The mesh comparison (__eq__) uses numpy allclose on physical bounds: outside the model, exercised on the real code."),
+    "C07": ("Lean 4 theorems on the one-pixel column model (exact rationals) + per-pixel correspondence check",
+            "Proof: Column.slice_initialised (for every position in the closed domain both samples of a pixel are written before the "
+            "pixel is computed, whatever the finer levels hold), Column.slice_affine (affine data is reproduced exactly unless the two "
+            "samples are isclose), lerp_affine/lerp_const, and the in-plane placement theorems (Grid.modelVal_eq_specVal, "
+            "Cover.cover_finest); every pixel of every generated slice is compared with the Lean column model and an independent "
+            "Python specification, with numpy.empty pre-filled with NaN as a taint for never-written reads.",
+            "Floats: model exact over Rat, implementation compared at rtol 1e-9; numpy.isclose bands are a modelling limit (positions are generated on dyadic offsets, never inside a band)."),
+    "C08": ("Lean 4 theorems on the concrete covering-grid model + bit-for-bit correspondence check",
+            "Proof: Grid.modelVal_eq_specVal (the repeat/reshape + slice-assign arithmetic puts at each fine cell the stored value of the "
+            "coarse cell containing it), Grid.coverAt_last and Cover.cover_finest (after level-ordered overwrites every pixel holds the "
+            "finest covering box's value), Cover.region_iff, repeat_reshape_index; outputs compared bit for bit with the oracle and the model.",
+            "numpy repeat/reshape/slice assignment are modelled by their index arithmetic."),
+    "C10": ("Lean 4 theorems on the covering-grid model and commuting disjoint writes + completion-order exploration",
+            "Proof: Grid.coverAt_last / Cover.cover_finest (covering grid) and Probe.write_comm (writes to disjoint regions commute, so the "
+            "array does not depend on the completion order of the per-file tasks within a level); whip's CLI is run in-process under "
+            "every completion order (<= 4 files) and compared cell for cell with the oracle and the model for both dtypes and limits.",
+            "numpy dtype casts are compared on the real output only."),
 }
 
 NOT_YET = {}
